@@ -246,6 +246,15 @@ def _bucket_c15(brng, tier, bidx):
 def world_c15(tier, seed, idx):
     K = K_BUCKET["C15"]
     b = _bucket_c15(rng_for(seed, "C15", tier, "bucket", idx // K), tier, idx // K)
+    fr = rng_for(seed, "C15", tier, "forms-bucket", idx // K)  # own stream: the other knobs are those of the earlier generator
+    if fr.random() < 0.2:
+        tails = {2: [[2, 1], [1, 2]], 3: [[3, 1], [1, 3, 1]]}
+        if b["ncols"] in tails:
+            b["x_tail"] = fr.choice(tails[b["ncols"]])
+        if b["cond_cols"] == 2 and fr.random() < 0.5:
+            b["cond_tail"] = [2, 1]
+    if fr.random() < 0.2:
+        b["data_dtype"] = fr.choice(["float64", "int32", "float64"])
     rng = rng_for(seed, "C15", tier, "run", idx)
     w = {"engine": "A", "prop": "C15", "idx": idx}
     w.update(b)
